@@ -37,6 +37,11 @@ type Step struct {
 	Doc  int       `json:"doc,omitempty"`
 	Ops  []FieldOp `json:"ops,omitempty"`
 	Msg  int       `json:"msg,omitempty"`
+	// Via (update): 0 = update_Users(docID:), 1 = update_Users(filter: {_docID: {_eq:}}), 2 = a filter on the
+	// indexed field i built from the value the node currently shows (a range from it upwards, or _eq: null)
+	// together with the _docID condition, so that an indexed collection serves the selection from the index
+	// the update may move the entry in
+	Via int `json:"via,omitempty"`
 }
 
 // Case is a full history.
@@ -242,6 +247,18 @@ func drawCase(t *rapid.T, bias string) Case {
 			s.Kind = "update"
 			s.Doc = rapid.IntRange(0, 3).Draw(t, "doc")
 			s.Ops = drawUpdateOps(t, bias)
+			s.Via = rapid.SampledFrom([]int{0, 0, 0, 0, 1, 2, 2, 0}).Draw(t, "via")
+			if s.Via == 2 && rapid.Bool().Draw(t, "moveIndexed") {
+				// the selection field itself moves (upwards for most pairs of pool values)
+				ops := []FieldOp{{Field: "i", Set: rapid.SampledFrom(valuePool["i"]).Draw(t, "ival")}}
+				for _, o := range s.Ops {
+					if o.Field != "i" {
+						ops = append(ops, o)
+					}
+				}
+				sort.Slice(ops, func(a, b int) bool { return ops[a].Field < ops[b].Field })
+				s.Ops = ops
+			}
 		case w < 50:
 			s.Kind = "mirror"
 			s.Doc = rapid.IntRange(0, 3).Draw(t, "doc")
